@@ -579,7 +579,7 @@ Lemma accumulate_fmt k file l0 R : 1 <= k ->
     exists c j tail, l = j + l0 /\ cut f c = CutFormat j /\ c ++ tail = R ++ terminator f R /\ R <> [].
 Proof.
   intros Hk. induction fuel as [|fuel IH]; intros pos temp re app base l Hc Hne HR HJ Hrun; [discriminate|].
-  cbn [accumulate] in Hrun.
+  cbn [accumulate] in Hrun. unfold m_is_finished, m_reported, m_lines_after, m_oneline_incomplete, m_oneline_kept, m_size_after, m_header_line, m_plus_line in *.
   destruct (firstn k (skipn pos file)) as [|x r] eqn:Eraw.
   - assert (HX : skipn pos file = []) by (apply (firstn_nil_inv k); assumption).
     rewrite HX, app_nil_r in HR. subst R.
